@@ -78,9 +78,7 @@ impl Lab {
         let state_holder = St { p: Mutex::new(AuthProvider::new(Vec::new())) };
         let (tx, rx) = channel();
         // find a free port by binding to 0 first
-        let l = std::net::TcpListener::bind("127.0.0.1:0").map_err(|e| e.to_string())?;
-        let port = l.local_addr().unwrap().port();
-        drop(l);
+        let port = hvcommon::net::free_port("127.0.0.1");
         let app: App<St> = App::new_with_config(2, state_holder).with_auth_route("/auth", auth_handler).with_shutdown(rx);
         let state = app.get_state();
         std::thread::spawn(move || {
@@ -129,7 +127,13 @@ fn run_sequence(r: &mut Report, lab: &Lab, seed: u64, seq: u64, all_tokens: &mut
     let mut m = Model { default_lifetime: dl, refresh_lifetime: rl, ..Default::default() };
     let max_users = rng.urange(1, 5);
     let nops = rng.urange(10, 60);
-    let passwords = ["pw-alpha", "pw-beta", "", "pässwörd 😀", "pw-alpha "];
+    // long passwords that agree on a long prefix (64, 72 and 299 bytes) and differ only after it
+    let long: Vec<String> = vec!["k".repeat(64), format!("{}a", "k".repeat(64)), format!("{}b", "k".repeat(64)), format!("{}1", "q".repeat(72)), format!("{}2", "q".repeat(72)), format!("{}x", "z".repeat(299)), format!("{}y", "z".repeat(299))];
+    let mut passwords: Vec<&str> = vec!["pw-alpha", "pw-beta", "", "pässwörd 😀", "pw-alpha "];
+    // each sequence works with three of the long ones (verification is deliberately slow)
+    for i in 0..3 {
+        passwords.push(&long[((seq as usize) * 3 + i) % long.len()]);
+    }
     let mut trace: Vec<String> = Vec::new();
     let replay = vec!["c17".to_string(), "--seed".into(), seed.to_string(), "--seq".into(), seq.to_string()];
     let mut violated = false;
@@ -433,5 +437,5 @@ pub fn main(args: &Args) {
         total.nontrivial(1);
         total.nontrivial(2);
     }
-    total.write(out, "model-based operation sequences (10..60 operations, 1..5 users, with/without pepper, default lifetime and refresh lifetime in {0 = expired at birth, 3600 = valid for the run}) over create_user, remove_user, verify (right / wrong / other user's password, unknown and removed uid), create_session, create_session_with_lifetime(0 | 3600), refresh_session, invalidate_session, invalidate_user_session, get_uid_by_token (current, superseded, invalidated, expired, malformed tokens) and requests to a with_auth_route route of a real App with 6 cookie spellings; after every step every token ever issued is probed, after every change of the user set every password x uid. distinct = distinct operation traces; every sequence is non-trivial (>= 10 operations)", None, &["expiry is logical (lifetime 0 vs 3600 seconds), no sleeping: the one-second clock granularity is never on the decision boundary", "token uniqueness is checked across all sequences of a shard"]);
+    total.write(out, "model-based operation sequences (10..60 operations, 1..5 users, with/without pepper, default lifetime and refresh lifetime in {0 = expired at birth, 3600 = valid for the run}) over create_user, remove_user, verify (right / wrong / other user's password incl. 64..300-byte passwords that differ only in their last byte, unknown and removed uid), create_session, create_session_with_lifetime(0 | 3600), refresh_session, invalidate_session, invalidate_user_session, get_uid_by_token (current, superseded, invalidated, expired, malformed tokens) and requests to a with_auth_route route of a real App with 6 cookie spellings; after every step every token ever issued is probed, after every change of the user set every password x uid. distinct = distinct operation traces; every sequence is non-trivial (>= 10 operations)", None, &["expiry is logical (lifetime 0 vs 3600 seconds), no sleeping: the one-second clock granularity is never on the decision boundary", "token uniqueness is checked across all sequences of a shard"]);
 }
